@@ -27,7 +27,9 @@ def tkey(x):
         return (0,)
     if isinstance(x, (bool, np.bool_)):
         return (1, int(x))
-    if isinstance(x, (int, float, np.integer, np.floating)):
+    if isinstance(x, (int, np.integer)):
+        return (2, int(x), 0)          # exact: integers above 2**53 must not collide (Python compares int with float exactly)
+    if isinstance(x, (float, np.floating)):
         xf = float(x)
         return (2, -1.0, 1) if math.isnan(xf) else (2, xf, 0)
     if isinstance(x, str):
@@ -463,13 +465,13 @@ def orderable(labels):
         return False
 
 
-def evaluate(H, fn, fe, labels=None, skip_unorderable=False, skip_flags=()):
+def evaluate(H, fn, fe, labels=None, skip_unorderable=False, skip_flags=(), reverse=False):
     """all measures (or those in `labels`) on H, canonicalised with labels mapped through fn / fe; measures carrying
     a flag in `skip_flags` are left out.  A raised exception is the value ('$err', type name)."""
     fnl, fel = fn, fe
     out = {}
     skip = set(skip_flags) | ({"orderable"} if skip_unorderable else set())
-    for site, label, shape, tol, flags, f in M:
+    for site, label, shape, tol, flags, f in (M[::-1] if reverse else M):      # reverse: the calls are made in the opposite order
         if labels is not None and label not in labels:
             continue
         if skip & flags:
